@@ -782,6 +782,9 @@ func directed(newHist func(label string) *hist, finish func(*hist), vr variant) 
 			h.bankc("multisend", V, 5, []cn{{"uusd", 5000}})
 			h.tick(90)
 			h.bankc("bank_send", V, 5, []cn{{"uusd", 100}, {"uzzz", 1}})
+			h.keyed(op{Kind: "add_limits", Signer: V, Denom: "ukex", Cap: 10, Limit: "1h"}, "", true, "")
+			h.bankc("bank_send", V, 5, []cn{{"ukex", 5}, {"uusd", 101}}) // both coins limited, the second one above its limit
+			h.bankc("bank_send", V, 5, []cn{{"ukex", 11}, {"uusd", 1}})
 		case 2: // unparsable / zero durations, removed limit
 			h.keyed(op{Kind: "create_custody", Signer: V, Set: []uint64{0, 50, 0, 0, 1}}, "", true, "")
 			h.keyed(op{Kind: "add_limits", Signer: V, Denom: "ukex", Cap: 100, Limit: "bad"}, "", true, "")
